@@ -124,7 +124,59 @@ func c18PointersDup(root ast.Vertex) (toks map[*token.Token]bool, poss map[*posi
 	return
 }
 
+// c18Constructors: the allocation entry point outside the pools, position.NewPosition (the lexer's error positions
+// come from it), called from g goroutines at once and from inside running Parse calls: every object distinct
+// and still holding its own values afterwards.
+func c18Constructors(c *core.Ctx, idx int) {
+	rnd := core.NewRand(c.P.Seed, "C18ctor", idx)
+	g, per := rnd.Range(2, 16), rnd.Range(200, 5000)
+	out := make([][]*position.Position, g)
+	var wg sync.WaitGroup
+	for k := 0; k < g; k++ {
+		wg.Add(1)
+		go func(k int) {
+			defer wg.Done()
+			l := make([]*position.Position, per)
+			for i := range l {
+				l[i] = position.NewPosition(k, i, k*per+i, -i)
+				if i%512 == 0 {
+					// lexer errors allocate positions the same way: a parse with unexpected characters in between
+					obs.Parse([]byte("<?php \x01 $a \x02;"), "7.4", true)
+				}
+			}
+			out[k] = l
+		}(k)
+	}
+	wg.Wait()
+	seen := map[*position.Position]bool{}
+	w := core.Witness{Cfg: map[string]string{"mode": "newposition-concurrent", "goroutines": fmt.Sprint(g), "calls_each": fmt.Sprint(per)}}
+	for k, l := range out {
+		for i, p := range l {
+			if p == nil {
+				c.Violation("pool|newposition|nil", "position.NewPosition returned nil", w)
+				return
+			}
+			if seen[p] {
+				c.Violation("pool|newposition|duplicate", fmt.Sprintf("position.NewPosition returned one object twice (goroutine %d, call %d)", k, i), w)
+				return
+			}
+			seen[p] = true
+			if p.StartLine != k || p.EndLine != i || p.StartPos != k*per+i || p.EndPos != -i {
+				c.Violation("pool|newposition|overwritten", fmt.Sprintf("the position created by goroutine %d, call %d holds %+v afterwards", k, i, *p), w)
+				return
+			}
+		}
+	}
+	c.Add("constructor_objects_compared", int64(len(seen)))
+	c.Cover("mode", "newposition-concurrent")
+	c.NonTrivial([]byte("ctor"), []byte(fmt.Sprint(idx)))
+}
+
 func c18TreesAlive(c *core.Ctx, idx int) {
+	if idx%10 == 9 {
+		c18Constructors(c, idx)
+		return
+	}
 	rnd := core.NewRand(c.P.Seed, "C18trees", idx)
 	k := 2 + rnd.Intn(4)
 	conc := rnd.Chance(1, 2)
@@ -208,7 +260,7 @@ func c18TreesAlive(c *core.Ctx, idx int) {
 func init() {
 	core.Register(&core.Check{
 		ID:   "C18",
-		Rule: "cases = {token,position} pool x {single, two interleaved pools of one size, 2..5 interleaved pools of different sizes} x block size (1..64 and boundary sizes; thorough 1..300 and up to 4097); each case is a history of 4*size+3 Get calls with all prefixes checked (objects written at once, or only after 1, 2, size or all further requests), plus long histories (200k / 1.5M requests for sizes 1,2,3,7,64,1000,1024,1025 and 4*size+3 requests for sizes 8192..100000) checked at every doubling and at the end; plus trees-alive cases: 2..5 Parse calls (sequential or on goroutines) whose trees are all kept — token and position objects pairwise distinct across the trees and no position object held by two tokens/nodes of one tree, every tree unchanged after the last parse; non-trivial = history crossed at least one block boundary; distinct by (mode, size, requests)",
+		Rule: "cases = {token,position} pool x {single, two interleaved pools of one size, 2..5 interleaved pools of different sizes} x block size (1..64 and boundary sizes; thorough 1..300 and up to 4097); each case is a history of 4*size+3 Get calls with all prefixes checked (objects written at once, or only after 1, 2, size or all further requests), plus long histories (200k / 1.5M requests for sizes 1,2,3,7,64,1000,1024,1025 and 4*size+3 requests for sizes 8192..100000) checked at every doubling and at the end; plus trees-alive cases: 2..5 Parse calls (sequential or on goroutines) whose trees are all kept — token and position objects pairwise distinct across the trees and no position object held by two tokens/nodes of one tree, every tree unchanged after the last parse; every tenth of these cases calls position.NewPosition from 2..16 goroutines (with lexer-error parses in between): all objects distinct and holding their own values; non-trivial = history crossed at least one block boundary; distinct by (mode, size, requests)",
 		Assumptions: []string{
 			"the public Pool API (NewPool, Get) is the only way the library obtains tokens and positions",
 			"block size 0 (Get returns nil) is outside the property's quantifier (positive sizes)",
